@@ -1308,9 +1308,9 @@ fn generate_more(seed: u64, tier: Tier, em: &mut Emitter) {
 
     // ---- 9. very long keys and patterns (strings given as [piece, count] lists)
     let lens: Vec<usize> = if thorough {
-        vec![63, 64, 65, 127, 128, 129, 255, 256, 257, 511, 512, 513, 1023, 1024, 1025, 2048, 4096, 8192]
+        vec![63, 64, 65, 127, 128, 129, 255, 256, 257, 511, 512, 513, 1023, 1024, 1025, 2048, 4096]
     } else {
-        vec![255, 256, 257, 1023, 1024, 1025, 4096]
+        vec![255, 256, 257, 1023, 1024, 1025]
     };
     for &l in &lens {
         let keys = json!([
@@ -1334,7 +1334,6 @@ fn generate_more(seed: u64, tier: Tier, em: &mut Emitter) {
             spec(&[("**x", 1)]),
             spec(&[("\u{e9}", l - 1), ("?", 1)]),
             spec(&[("?", l)]),
-            spec(&[("*a", l)]),
             spec(&[("a", l), ("/", 1), ("*", 1)]),
             spec(&[("*", 1), ("/", 1), ("b", l)]),
         ] {
@@ -1353,8 +1352,9 @@ fn generate_more(seed: u64, tier: Tier, em: &mut Emitter) {
         emit(em, "roundtrip", json!([spec(&[("a", l), (".gz", 1)]), [1, 2]]), &["long-keys", "huge"]);
     }
     emit(em, "expand", json!([true, [spec(&[("a", 8192)]), "a"], spec(&[("?", 8192)])]), &["long-keys", "many-wildcards"]);
-    emit(em, "expand", json!([true, [spec(&[("a", 4096)]), "b"], spec(&[("*a", 4096)])]), &["long-keys", "many-wildcards"]);
-    emit(em, "expand", json!([true, [spec(&[("a", 2048)]), "b"], spec(&[("**a", 2048)])]), &["long-keys", "many-wildcards"]);
+    // (the model's matcher evaluates both sides of `&&` / `||`, so patterns with many `*` are kept short)
+    emit(em, "expand", json!([true, [spec(&[("a", 12)]), spec(&[("a", 11)]), "b"], spec(&[("*a", 12)])]), &["long-keys", "many-wildcards"]);
+    emit(em, "expand", json!([true, [spec(&[("a", 10)]), spec(&[("a/", 5)]), "b"], spec(&[("**a", 5), ("*/", 5)])]), &["long-keys", "many-wildcards"]);
 
     // ---- 10. call sequences on one store with several buckets
     let a = json!([12, "ab", [3, "cd", true]]);
